@@ -139,6 +139,7 @@ func extra() {
 	f14()
 	t8()
 	t9()
+	t10()
 }
 
 // F7: per clone function of workflow/utils/clone/clone.go, the fields that are always copied (keys of
